@@ -50,8 +50,8 @@ std::ostream& serialize(std::ostream& _ostr, const std::string& _rhs)
 
 std::istream& deserialize(std::istream& _istr, std::string& _rhs)
 {
-    size_t len;
-    char delimiter;
+    size_t len = 0;
+    char delimiter = 0;
     _istr >> len;  //deserialize size of string
     _istr >> delimiter;
     if (_istr && len) {
@@ -66,7 +66,7 @@ std::istream& deserialize(std::istream& _istr, std::string& _rhs)
 
 std::istream& operator>>(std::istream& _istr, std::vector< bool >& _rhs)
 {
-    size_t size;
+    size_t size = 0;
     _istr >> size;
     _rhs.resize(size);
     for (size_t i=0; i<size; i++)
